@@ -32,7 +32,7 @@ ASSUMPTIONS = [
   "memory are re-seeded with a Hypothesis-drawn value (the library fixes them per port)",
   "checksum: 128-bit message layout = word i in bits [16i,16i+16) (examples/ex02_cksum/utils.py)",
 ]
-QUICK_S = 48
+QUICK_S = 44
 THOROUGH_S = 800
 
 LEVELS = ("FL", "CL", "RTL")
@@ -437,8 +437,13 @@ class Gen:
       self.emit(("nop",))
 
 
+_stop = [None]        # set by run_shard: callable telling the generators that the budget is gone
+
+
 @st.composite
 def proc_cases(draw, max_items=14, max_steps=260):
+  if _stop[0] is not None and _stop[0]():
+    return None                              # budget gone: do not spend time generating
   data_base = draw(st.sampled_from(DATA_BASES))
   g = Gen(draw)
   first_inputs = g.prologue(data_base)
@@ -528,6 +533,8 @@ words8 = st.one_of(st.lists(word16, min_size=8, max_size=8),
 
 @st.composite
 def cksum_cases(draw):
+  if _stop[0] is not None and _stop[0]():
+    return None
   return {"kind": "cksum", "msgs": draw(st.lists(words8, min_size=1, max_size=5)),
           "src_init": draw(st.integers(0, 10)), "src_intv": draw(st.integers(0, 3)),
           "sink_init": draw(st.integers(0, 10)), "sink_intv": draw(st.integers(0, 3)),
@@ -586,6 +593,7 @@ def one_cksum(ctx, case):
 # ---------------------------------------------------------------------------
 
 def run_shard(ctx):
+  _stop[0] = ctx.out_of_time
   # fixed boundary checksum inputs first (one shard), then generated ones
   if ctx.shard == 0:
     fixed = [[w] * 8 for w in W_BOUND] + [[0xFFFF, 0] * 4, [0, 0xFFFF] * 4, list(range(1, 9)),
@@ -599,7 +607,7 @@ def run_shard(ctx):
   @ctx.settings(ctx.n(320, 12000))
   @given(cksum_cases())
   def t_cksum(case):
-    if ctx.out_of_time(): return
+    if case is None or ctx.out_of_time(): return
     one_cksum(ctx, case)
 
   ctx.run(t_cksum, "c20_cksum")
@@ -612,7 +620,7 @@ def run_shard(ctx):
   @ctx.settings(ctx.n(1280, 32000))
   @given(proc_cases(max_items=12 if small else 18, max_steps=220 if small else 400))
   def t_proc(case):
-    if ctx.out_of_time(): return
+    if case is None or ctx.out_of_time(): return
     one_proc(ctx, case)
 
   ctx.run(t_proc, "c20_proc")
